@@ -6,6 +6,7 @@
   broker replies, context cancellation, and the choices of Go's `select`); theorems quantify over
   all of them, for every connect id / every RNG.
 -/
+import CedarGen.FactsCCB
 import CedarProofs.CcbDialSys
 
 namespace Cedar.C20
@@ -233,5 +234,13 @@ example : ((Sys.init (fun i => match i with | 0 => "R0" | _ => "R1") [.flat, .fl
     another id does not -/
 example : dialProxy "ID" {} false (.ad { result := true }) (.hello reverseConnectCmd "ID") = .ok () := by rfl
 example : dialProxy "ID" {} false (.ad { result := true }) (.hello reverseConnectCmd "") = .error .idMismatch := by rfl
+
+/-- **connect_id_source**: `GenerateConnectID` (regenerated table of what it calls and which
+    package-level variables it reads) draws from `crypto/rand` and from nothing that survives from
+    one request to the next — an id cannot be derived from an earlier one. -/
+theorem connect_id_source :
+    CedarGen.FactsCCB.connectIdSources.contains "crypto/rand.Read" = true ∧
+    CedarGen.FactsCCB.connectIdSources.all
+      (fun s => ["crypto/rand.Read", "encoding/hex.EncodeToString", "fmt.Errorf"].contains s) = true := by decide
 
 end Cedar.C20
